@@ -74,4 +74,8 @@ def fltMaxAsF64 : Nat := 0x47EFFFFFE0000000
 /-- `v >= -FLT_MAX && v <= FLT_MAX` for a binary64 pattern (false for NaN and infinities). -/
 def inFloatRange (b : Nat) : Bool := b % 2 ^ 63 ≤ fltMaxAsF64
 
+/-- the test of `Convert::Detail::To(double, float)`: `!std::isfinite(v) || (v >= -FLT_MAX && v <= FLT_MAX)` —
+    infinities and NaN are values of every floating-point type and are handed to `static_cast<float>` as well -/
+def toFloatOk (b : Nat) : Bool := isNaN64 b || isInf64 b || inFloatRange b
+
 end BSVerif.MsgPack.Ieee
